@@ -13,7 +13,7 @@ from nmverif.worker import quarantined, wal_text
 VALUE_POOL = ['"9.9.9"', "42", "true", "null", "fresh", "fresh.attr", "fresh 1", "[ ]", "[ u v ]",
               "{ }", "./new.nix", '"a b"', "-7", "u + 1", "!u"]
 MULTILINE_VALUES = ["[\n  u\n  v\n]", "{\n  k = 1;\n  m = 2;\n}", "''\n  text\n''"]
-BAD_VALUES = ["", "   ", "# only a comment", "1 2", "{ a = ", "a b )", "1; 2", "let x = 1;", "[ 1", "\n"]
+BAD_VALUES = ["", "   ", "# only a comment", "1 2 ;", "{ a = ", "a b )", "1; 2", "let x = 1;", "[ 1", "\n"]
 MALFORMED_PATHS = ["", ".", "a..b", ".a", "a.", 'a"b"', '"a', 'a."b', '"a\\', "a-b", "1a", "a b", "'a",
                    "a.$", "@", "@@", '"a"b', "a.\"b\"c", "a,b", "a;"]
 
@@ -98,6 +98,10 @@ def choose_ops(rng: random.Random, dv: A.DocView, n: int, *, scoped: bool = True
             elif kk < 0.45 and leaves:
                 p = rng.choice(leaves)
                 ops.append(Op("rm", spell(p + (fresh,)), "", "rm-through-leaf"))
+            elif kk < 0.42 and inherited:
+                # a path through a name that exists only through `inherit`: not a set
+                p = rng.choice(inherited)
+                ops.append(Op(rng.choice(["set", "set", "rm"]), spell(p + (fresh,)), val, "through-inherited"))
             elif kk < 0.5 and mixed_sets:
                 ops.append(Op("set", spell(rng.choice(mixed_sets)), val, "overwrite-mixed-root"))
             elif kk < 0.6 and attr_sets:
